@@ -52,6 +52,9 @@ pub open spec fn sbd_inv(d: SourceBlockDecoder) -> bool {
     &&& d.received_esi@.finite()
     &&& forall |i: int| 0 <= i < d.source_symbols@.len() ==> ((#[trigger] d.source_symbols@[i]).is_some() <==> d.received_esi@.contains(i as u32))
     &&& d.received_source_symbols as int == count_some(d.source_symbols@)
+    // every stored payload is exactly one symbol (T bytes): packets come from the encoder of this object
+    &&& forall |i: int| 0 <= i < d.source_symbols@.len() && (#[trigger] d.source_symbols@[i]).is_some() ==> d.source_symbols@[i].unwrap().value@.len() == d.symbol_size as int
+    &&& forall |j: int| 0 <= j < d.repair_packets@.len() ==> (#[trigger] d.repair_packets@[j]).data@.len() == d.symbol_size as int
     // repair packets: exactly the received ESIs >= K, in arrival order, without repetition
     &&& forall |j: int| 0 <= j < d.repair_packets@.len() ==> (#[trigger] d.repair_packets@[j]).payload_id.encoding_symbol_id >= d.source_block_symbols
                         && d.received_esi@.contains(d.repair_packets@[j].payload_id.encoding_symbol_id)
@@ -197,7 +200,7 @@ UNPACK_ENS = ['final(result)@ == unpack_spec(self.symbol_size as int, self.symbo
 
 def sbd_struct(u):
     u.struct('src/decoder.rs', 'SourceBlockDecoder', subst=[('Set<u32>', 'HashSet<u32>')])
-    u.struct('src/decoder.rs', 'EncodingParameters')
+    u.struct('src/decoder.rs', 'EncodingParameters', prefix='#[derive(Clone, Copy)]\n')
 
 
 def const_fns(u):
@@ -331,7 +334,7 @@ fn fused_inverse_mul_symbols_no_hdpc<T: BinaryMatrix>(matrix: T, symbols: Symbol
     u.fn('src/decoder.rs', 'decode', impl='impl SourceBlockDecoder', rename='decode_step', d5='step', ret='r',
          sig_override='fn decode_step(&mut self, packet: EncodingPacket)',
          rules=['A1'],
-         requires=['sbd_inv(*old(self))', 'packet.payload_id.source_block_number == old(self).source_block_id'],
+         requires=['sbd_inv(*old(self))', 'packet.payload_id.source_block_number == old(self).source_block_id', 'packet.data@.len() == old(self).symbol_size as int'],
          ensures=['sbd_inv(*final(self))', 'step_spec(*old(self), *final(self), packet)'],
          inserts=[('self.received_source_symbols += 1;', 'before',
                    'proof { lemma_count_some_update(old(self).source_symbols@, payload_id.encoding_symbol_id as int, Symbol { value: payload }); }'),
@@ -367,6 +370,22 @@ fn fused_inverse_mul_symbols_no_hdpc<T: BinaryMatrix>(matrix: T, symbols: Symbol
         }
     }
 }''')
+    def tpd(name, solver, extra_args):
+        inv = ('invariant i <= self.source_block_symbols as usize, result@.len() == self.symbol_size as int * self.source_block_symbols as int, [?rebuilt_buf: rebuilt_buf@.len() == self.symbol_size as int, ?]'
+               ' sbd_inv(*self), sbd_same_received(*old(self), *self), self.decoded == old(self).decoded,'
+               ' self.symbol_size >= 1, self.symbol_alignment >= 1, self.symbol_size as int % self.symbol_alignment as int == 0,'
+               ' 1 <= self.num_sub_blocks as int <= self.symbol_size as int / self.symbol_alignment as int,'
+               ' result@ == assemble(*old(self), Some(intermediate_symbols), i as nat),')
+        u.fn('src/decoder.rs', name, impl='impl SourceBlockDecoder', ret='r',
+             requires=['sbd_inv(*old(self))'] + PARAMS_OK + ['matrix_k(constraint_matrix) == old(self).source_block_symbols as int'],
+             ensures=['sbd_same_received(*old(self), *final(self))',
+                      'match r { Some(v) => Some(v@), None => None } == tpd_spec(*old(self), %s(old(self).source_block_symbols as int, matrix_isis(constraint_matrix), slab_rows(symbols)))' % solver],
+             sig_subst=[('constraint_matrix: impl BinaryMatrix', 'constraint_matrix: T'), ('fn %s(' % name, 'fn %s<T: BinaryMatrix>(' % name)],
+             inserts=[('let mut result = vec![0;', 'before',
+                       'proof { assert(self.symbol_size as int * self.source_block_symbols as int <= 65535 * 56403) by (nonlinear_arith) requires self.symbol_size <= 65535, self.source_block_symbols <= 56403; }')],
+             loops={0: inv})
+    tpd('try_pi_decode', 'solve_std', '')
+    tpd('try_pi_decode_no_hdpc', 'solve_nohdpc', '')
     u.raw('}')
     u.raw('} // verus!')
     return u
